@@ -407,7 +407,7 @@ func (r *Runner) compareLogs(model, real []Entry, id int64, res *StepResult) {
 		// only function entries are observable
 		var m2 []Entry
 		for _, e := range model {
-			if e.Pol == PolFunction || e.Name == "fallback.fn" {
+			if e.Pol == PolFunction || e.Name == "fallback.fn" || e.Name == "delay.fn" {
 				m2 = append(m2, e)
 			}
 		}
